@@ -894,7 +894,11 @@ where
                 let cell_ref = CellRef::from_raw(cell);
                 let size = cell_ref.total_size();
                 destination_offset -= size as usize;
-                self.write_item_to_offset(destination_offset as u64, cell_ref);
+                // The cell slides right by less than its own size when the gap is small, so source
+                // and destination may overlap: this must be a memmove, not a memcpy.
+                let src = cell.cast::<u8>().as_ptr() as *const u8;
+                let dest = self.data.byte_add(destination_offset).cast::<u8>().as_ptr();
+                std::ptr::copy(src, dest, size);
             }
             self.slot_array_mut()[i] = destination_offset as u16;
         }
